@@ -915,6 +915,10 @@ func spRunHistory(h spHistory, known []string, res *spResult, guarded bool) {
 		}
 		if w.viol == nil {
 			w.finish()
+			if w.viol != nil {
+				w.viol.At = len(h.Steps)
+				w.viol.Detail += " [in the closing phase: every caller gives back what it holds, the pool is emptied]"
+			}
 		}
 	}()
 	if w.viol != nil {
